@@ -653,6 +653,56 @@ PROPS["C18"] = {
 }
 
 
+def feat_oracle(pid, res, driver):
+    """Cross-build comparison: outputs and estimator (oracle) values of every feature build are identical."""
+    findings = []
+    for sn in ("DLV",):
+        d2 = res.stream_data.get(sn)
+        if d2 and "release" in d2["impl"]:
+            for p in [q for q in d2["impl"] if ":" in q]:
+                for c, a, b in zip(d2["cases"], d2["impl"]["release"], d2["impl"][p]):
+                    if a != b:
+                        findings.append({"case": c[:2000], "impl": b[:300], "reference": a[:300], "profile": p,
+                                         "why": "%s output of feature build %s differs from the default build" % (sn, p.split(":")[1])})
+    data = res.stream_data.get("ENC")
+    if not data:
+        return findings
+    ref_name = "release"
+    ref = data["impl"].get(ref_name)
+    builds = [p for p in data["impl"] if ":" in p]
+    res.extra["feature_builds"] = [ref_name + ":fdefault"] + builds
+    for p in builds:
+        for c, a, b in zip(data["cases"], ref, data["impl"][p]):
+            if a != b:
+                findings.append({"case": c[:2000], "impl": b[:300], "reference": a[:300], "profile": p,
+                                 "why": "output of feature build %s differs from the default build" % p.split(":")[1]})
+    # estimator outputs (hooks) per build
+    bins = getattr(res, "bins", {})
+    if ref_name in bins:
+        ref_aug = fv.run_lines([bins[ref_name], "augment"], data["cases"], timeout=1500, key_index=1)
+        n = 0
+        for p in builds:
+            aug = fv.run_lines([bins[p], "augment"], data["cases"], timeout=1500, key_index=1)
+            for c, a, b in zip(data["cases"], ref_aug, aug):
+                n += 1
+                if a != b:
+                    findings.append({"case": c[:2000], "impl": b[-300:], "reference": a[-300:], "profile": p,
+                                     "why": "estimator outputs (entropy / quantised LPC hooks) of feature build %s differ" % p.split(":")[1]})
+        res.extra["estimator_comparisons"] = n
+    return findings
+
+
+PROPS["C20"] = {
+    "coq": "theories/Props/C20.v",
+    "theorems": ["C20_threading_fields_irrelevant", "C20_verify_feature_independent", "C20_verify_ignores_threading"],
+    "streams": "FEAT", "rule": "ENC+DLV",
+    "oracle": feat_oracle,
+    "assumptions": ["the estimators under cfg(feature = \"experimental\") are floating-point code behind the model's oracles: their agreement "
+                    "across the four builds ({}, default, decode, default+experimental) is compared on every case, not proved",
+                    "feature sets follow the project's CI matrix; simd-nightly and mimalloc need a nightly toolchain / allocator crate and are not built"],
+}
+
+
 def check_coq(pid, spec, res):
     """Build the proofs; returns True when the property's theorems are all checked."""
     closure = fv.dep_closure(spec["coq"])
@@ -705,7 +755,8 @@ def run_streams(pid, spec, tier, seed, res, replay_cases=None):
             if prof == "release" and tier == "quick" and not st.get("release_in_quick", True):
                 continue
             if prof not in bins:
-                bins[prof] = fv.build_harness(prof)
+                bins[prof] = fv.build_harness(*prof.split(":")) if ":" in prof else fv.build_harness(prof)
+    res.bins = bins
     dist = {}
     disagreements = []
     seen = set()
@@ -763,6 +814,16 @@ def run_check(pid, spec, tier, seed, replay):
     spec = dict(spec)
     if spec.get("streams") == "ENC":
         spec["streams"] = [dict(ENC_STREAM)]
+    if spec.get("streams") == "FEAT":
+        st = dict(ENC_STREAM)
+        st["profiles"] = ["debug", "release", "release:fnone", "release:fdecode_only", "release:fexperimental"]
+        st["release_in_quick"] = True
+        st["quick"] = min(st["quick"], 400)
+        st2 = dict(DLV_STREAM)
+        st2["profiles"] = list(st["profiles"])
+        st2["release_in_quick"] = True
+        st2["quick"] = min(st2["quick"], 200)
+        spec["streams"] = [st, st2]
     if spec.get("streams") == "ENC+CNT":
         spec["streams"] = [dict(ENC_STREAM), dict(CNT_STREAM)]
     if spec.get("streams") == "ENC+DLV":
